@@ -1,5 +1,9 @@
-"""Property -> rules registry.  (rule function, ports) ; ports None = rule handles ports itself."""
-from .rules import sk, wr, conf, lk, cs, ow, gs, rd, rs, ag, hd, pa, ifc
+"""Property -> rules registry.  Entries are (rule function, ports); ports None = the rule handles ports itself.
+
+quick  = every rule serving the property (each is sub-second; the skeleton and configuration spaces are always enumerated in full)
+thorough = quick + cross-port agreement (XP) rules and the neighbouring rule groups the property's behaviour also rests on.
+"""
+from .rules import ag, conf, cs, gs, hd, ifc, lk, ow, pa, rd, rs, sk, wr, xp
 
 BOTH = ('py', 'js')
 PY = ('py',)
@@ -7,88 +11,182 @@ JS = ('js',)
 
 COMMON_ASSUMPTIONS = [
     'parsers are trusted: python ast/symtable/re._parser, acorn bundled with node',
-    'language semantics: slicing/concatenation allocate, sorted/Array.sort are stable, dict/Map keep insertion order',
+    'language semantics: slicing/concatenation allocate, sorted/Array.sort are stable, dict/Map keep insertion order, re.escape escapes every metacharacter',
     'user expressions, init code and user-supplied iterator/writer objects are opaque and do not mutate engine or source objects',
     'python-2 branches are not analysed (PY3 folded to True)',
+    'holes (user fragments) do not contain the generator\'s own placeholders',
 ]
 
-SK_CORE = [(sk.rule_sk_parse, BOTH), (sk.rule_sk_eof, BOTH), (sk.rule_sk_nr, BOTH), (sk.rule_sk_nf, BOTH), (sk.rule_sk_vars, BOTH), (sk.rule_sk_where, BOTH)]
+
+def both(*fns):
+    return [(f, BOTH) for f in fns]
+
+
+def py(*fns):
+    return [(f, PY) for f in fns]
+
+
+def js(*fns):
+    return [(f, JS) for f in fns]
+
+
+def one(*fns):
+    return [(f, None) for f in fns]
+
+
+SK_LOOP = both(sk.rule_sk_parse, sk.rule_sk_eof, sk.rule_sk_nr, sk.rule_sk_nf, sk.rule_sk_vars, sk.rule_sk_where)
+SK_SELECT = both(sk.rule_sk_emit, sk.rule_sk_unnest, sk.rule_sk_join)
+SK_UPDATE = both(sk.rule_sk_copy, sk.rule_sk_upd, sk.rule_sk_nu)
+SK_ALL = SK_LOOP + SK_SELECT + SK_UPDATE + both(sk.rule_sk_stop, sk.rule_sk_err, sk.rule_sk_alias) + py(sk.rule_sk_scope)
+WR_ALL = both(wr.rule_wr_ret, wr.rule_wr_prop, wr.rule_wr_fin, wr.rule_wr_top, wr.rule_wr_uniq, wr.rule_wr_ucnt, wr.rule_wr_sort, wr.rule_wr_aggw)
+CONF_ALL = both(conf.rule_pa_conf, conf.rule_wr_order, conf.rule_pa_excl, conf.rule_pa_hdrcall, conf.rule_hd_arity, conf.rule_pa_with, conf.rule_rs_proto)
+AG_ALL = both(ag.rule_ag_route, ag.rule_ag_init, ag.rule_ag_stage, ag.rule_ag_const, ag.rule_ag_sib, ag.rule_ag_starcount, ag.rule_ag_keyord) + one(ag.rule_ag_mad)
+JN_ALL = both(ag.rule_jn_dispatch, ag.rule_jn_joiners, ag.rule_jn_build, ag.rule_pa_join)
+HD_ALL = both(hd.rule_hd_table, hd.rule_hd_startwin, hd.rule_hd_except, hd.rule_hd_update) + one(hd.rule_hd_shapes)
+VA_ALL = both(hd.rule_va_index, hd.rule_va_enum, hd.rule_va_esc) + one(hd.rule_va_record)
+PA_ALL = both(pa.rule_pa_case, pa.rule_pa_withcase, pa.rule_pa_groups, pa.rule_pa_litorder, pa.rule_pa_lit, pa.rule_pa_top, pa.rule_pa_asc, pa.rule_pa_redund)
+CS_ALL = both(cs.rule_rx_field, cs.rule_rx_newline, cs.rule_rx_ws, cs.rule_cs_trigger, cs.rule_cs_accept, cs.rule_cs_width, cs.rule_cs_extws, cs.rule_cs_dispatch, cs.rule_cs_writer)
+XP_ALL = one(xp.rule_rx_xp, xp.rule_xp_keywords, xp.rule_xp_roles, xp.rule_xp_messages, xp.rule_xp_verdicts)
+OW_ALL = both(ow.rule_ow_mut, ow.rule_ow_fresh, ow.rule_ow_open, ow.rule_ow_fs) + one(ow.rule_ow_sql, ow.rule_ow_pandas)
+RD_PY = one(rd.rule_rd_mustflow, rd.rule_rd_partition, rd.rule_rd_crla) + py(rd.rule_rd_decode, rd.rule_rd_eof, rd.rule_rd_bom, rd.rule_rd_comment, rd.rule_rd_rfc, rd.rule_rd_hdrflag, rd.rule_rd_replay, cs.rule_rx_newline)
+RD_JS = one(rd.rule_rd_jschunk) + js(rd.rule_rd_decode, rd.rule_rd_eof, rd.rule_rd_bom, rd.rule_rd_comment, rd.rule_rd_rfc, rd.rule_rd_hdrflag, rd.rule_rd_replay, cs.rule_rx_newline)
+GS_ALL = one(gs.rule_gs_modstate, gs.rule_gs_classattr, gs.rule_gs_defaults, gs.rule_gs_ctxescape, gs.rule_gs_exec)
+LK_ALL = both(lk.rule_lk_taint, lk.rule_lk_map, lk.rule_lk_anchor, lk.rule_lk_part, lk.rule_lk_cache) + one(lk.rule_rx_jsesc)
+RS_ALL = one(rs.rule_rs_close, rs.rule_rs_epipe, rs.rule_rs_decerr)
+FL_ALL = both(rs.rule_fl_flags, rs.rule_fl_fields)
+IF_ALL = one(ifc.rule_if_layer, ifc.rule_if_conf, ifc.rule_if_entry, ifc.rule_cl_stdout, ifc.rule_cl_exit)
+
+
+def only(rules, port):
+    """restrict BOTH-port rules to one port"""
+    out = []
+    for f, ports in rules:
+        if ports is None:
+            out.append((f, ports))
+        elif port in ports:
+            out.append((f, (port,)))
+    return out
+
 
 PROPS = {
+    'C01': {
+        'rules': SK_LOOP + SK_SELECT + both(sk.rule_sk_stop, sk.rule_sk_err) + both(hd.rule_va_index, hd.rule_hd_startwin, hd.rule_hd_except, ow.rule_ow_fresh),
+        'thorough_rules': both(sk.rule_sk_alias, wr.rule_wr_ret, wr.rule_wr_prop) + one(xp.rule_xp_verdicts),
+        'explanation': 'Decides the loop structure of every generated SELECT program (all 16 select configurations per port, composed by partially evaluating the code generator from its own source): end-of-input test before NR, NR/NF definitions, variable initialisation dominating every user fragment and placed inside the join-match loop, WHERE control dependence, exactly one emission per evaluation selected by (aggregation stage, UNNEST), UNNEST reset on every cycle through the select fragment, join pairing order; plus aN/a[N] -> index N-1 with the safe_get guard, star/EXCEPT expansion as fresh lists.',
+        'not_decided': 'that the regex-based rewriting of an arbitrary select list preserves its meaning (comma structure inside nested brackets, AS inside expressions); values computed by user expressions.',
+    },
     'C02': {
-        'rules': [(wr.rule_wr_ret, BOTH), (wr.rule_wr_prop, BOTH), (wr.rule_wr_fin, BOTH), (wr.rule_wr_top, BOTH), (wr.rule_wr_uniq, BOTH), (wr.rule_wr_ucnt, BOTH), (wr.rule_wr_sort, BOTH), (wr.rule_wr_aggw, BOTH),
-                  (conf.rule_pa_conf, BOTH), (conf.rule_wr_order, BOTH), (conf.rule_pa_excl, BOTH), (conf.rule_pa_hdrcall, BOTH), (conf.rule_hd_arity, BOTH), (conf.rule_pa_with, BOTH), (conf.rule_rs_proto, BOTH)],
-        'explanation': 'x',
-        'not_decided': 'y',
-    },
-    'C17': {
-        'rules': [(lk.rule_lk_taint, BOTH), (lk.rule_lk_map, BOTH), (lk.rule_lk_anchor, BOTH), (lk.rule_lk_part, BOTH), (lk.rule_lk_cache, BOTH), (lk.rule_rx_jsesc, None)],
-        'explanation': 'x',
-        'not_decided': 'y',
-    },
-    'C11': {
-        'rules': [(cs.rule_rx_field, BOTH), (cs.rule_rx_newline, BOTH), (cs.rule_rx_ws, BOTH), (cs.rule_cs_trigger, BOTH), (cs.rule_cs_accept, BOTH), (cs.rule_cs_width, BOTH), (cs.rule_cs_extws, BOTH), (cs.rule_cs_dispatch, BOTH), (cs.rule_cs_writer, BOTH)],
-        'explanation': 'x',
-        'not_decided': 'y',
-    },
-    'C06': {
-        'rules': [(ow.rule_ow_mut, BOTH), (ow.rule_ow_fresh, BOTH), (ow.rule_ow_open, BOTH), (ow.rule_ow_fs, BOTH), (ow.rule_ow_sql, None), (ow.rule_ow_pandas, None)],
-        'explanation': 'x',
-        'not_decided': 'y',
-    },
-    'C16': {
-        'rules': [(gs.rule_gs_modstate, None), (gs.rule_gs_classattr, None), (gs.rule_gs_defaults, None), (gs.rule_gs_ctxescape, None), (gs.rule_gs_exec, None)],
-        'explanation': 'x',
-        'not_decided': 'y',
-    },
-    'C12': {
-        'rules': [(rd.rule_rd_mustflow, None), (rd.rule_rd_partition, None), (rd.rule_rd_crla, None), (rd.rule_rd_decode, PY), (rd.rule_rd_eof, PY), (rd.rule_rd_bom, PY), (rd.rule_rd_comment, PY), (rd.rule_rd_rfc, PY), (rd.rule_rd_hdrflag, PY), (rd.rule_rd_replay, PY), (cs.rule_rx_newline, PY)],
-        'explanation': 'x',
-        'not_decided': 'y',
-    },
-    'C20': {
-        'rules': [(rd.rule_rd_jschunk, None), (rd.rule_rd_decode, JS), (rd.rule_rd_eof, JS), (rd.rule_rd_bom, JS), (rd.rule_rd_comment, JS), (rd.rule_rd_rfc, JS), (rd.rule_rd_hdrflag, JS), (rd.rule_rd_replay, JS), (cs.rule_rx_newline, JS)],
-        'explanation': 'x',
-        'not_decided': 'y',
-    },
-    'C15': {
-        'rules': [(rs.rule_rs_close, None), (rs.rule_rs_epipe, None), (rs.rule_rs_decerr, None), (rs.rule_fl_flags, BOTH), (rs.rule_fl_fields, BOTH)],
-        'explanation': 'x',
-        'not_decided': 'y',
+        'rules': WR_ALL + both(conf.rule_pa_conf, conf.rule_wr_order, conf.rule_pa_excl) + both(sk.rule_sk_stop, pa.rule_pa_top, pa.rule_pa_asc),
+        'thorough_rules': both(sk.rule_sk_emit, conf.rule_rs_proto) + one(xp.rule_xp_verdicts, xp.rule_xp_roles),
+        'explanation': 'Decides the composition sort -> dedup -> truncate on the exhaustive configuration table of the shallow parser (1024 keyword configurations): wrapping order Top, Uniq|UniqCount, Sorted and presence iff keyword; per writer: stable ascending sort on the key only with DESC = reversal of that result, first-occurrence dedup on the immutable record image, insertion-ordered multiplicity map with count prefix, TOP refusing iff NW >= N and counting forwarded records; termination: every write() returns a boolean, every downstream verdict is propagated, a false verdict sets stop_flag, the loop tests it and inner loops break.',
+        'not_decided': 'that user sort keys are mutually comparable; stability of sorted()/Array.sort (trusted language semantics).',
     },
     'C03': {
-        'rules': [(ag.rule_ag_route, BOTH), (ag.rule_ag_init, BOTH), (ag.rule_ag_stage, BOTH), (ag.rule_ag_const, BOTH), (ag.rule_ag_sib, BOTH), (ag.rule_ag_mad, None), (ag.rule_ag_starcount, BOTH), (ag.rule_ag_keyord, BOTH)],
-        'explanation': 'x',
-        'not_decided': 'y',
+        'rules': AG_ALL + both(wr.rule_wr_aggw, sk.rule_sk_alias, sk.rule_sk_emit, conf.rule_pa_excl),
+        'thorough_rules': both(sk.rule_sk_where, wr.rule_wr_prop) + one(xp.rule_xp_roles),
+        'explanation': 'Decides routing and grouping: each aggregate entry point (and every alias spelling bound in the generated prologue) registers the aggregator class of the same name, COUNT passes 1, token ids equal registration order, stage 1 installs one aggregator or constant-group verifier per output column and feeds the first record, stage 2 increments aggregator i with value i, group keys are collected in a set and emitted in ascending component-wise order, one get_final per column; constant-group verifier raises on a differing value and tests absence by membership; lower-case min/max/sum dispatch; COUNT(*) rewrite; ORDER BY/UPDATE/DISTINCT rejected.',
+        'not_decided': 'numerical exactness of the nine accumulators (variance formula, even/odd median, int -> float fallback): statements about runtime values; no rule pins an arithmetic expression.',
     },
     'C04': {
-        'rules': [(ag.rule_jn_dispatch, BOTH), (ag.rule_jn_joiners, BOTH), (ag.rule_jn_build, BOTH), (ag.rule_pa_join, BOTH)],
-        'explanation': 'x',
-        'not_decided': 'y',
+        'rules': JN_ALL + both(sk.rule_sk_join, sk.rule_sk_vars, pa.rule_pa_groups, hd.rule_va_index),
+        'thorough_rules': both(sk.rule_sk_where, sk.rule_sk_emit, sk.rule_sk_unnest, sk.rule_sk_upd, sk.rule_sk_err) + one(xp.rule_xp_keywords, xp.rule_rx_xp),
+        'explanation': 'Decides join pairing structure: longest join keyword wins, keyword -> joiner table total and name-consistent, B map appended in read order with 1-based bNR and (bNR, bNF, record) triples, build() before joiner construction, LEFT null record of max_record_len Nones, STRICT != 1 raises, A-side and B-side key representations switch on the same condition, ON accepts = and == in either operand order, NR keys -> index -1; in the generated program each A record is paired with get_rhs(key) matches in order and the whole select block (variables, WHERE, SELECT, sort/group key) is inside the match loop; UPDATE JOIN: >1 raises, 1 binds, 0 binds Nones and skips assignments.',
+        'not_decided': 'equality of key values (hashing of user data) - trusted to dict/Map semantics.',
+    },
+    'C05': {
+        'rules': SK_LOOP + SK_UPDATE + both(sk.rule_sk_join, sk.rule_sk_err, sk.rule_sk_stop, hd.rule_va_index, ow.rule_ow_mut),
+        'thorough_rules': both(hd.rule_hd_update, conf.rule_pa_excl, ow.rule_ow_fresh),
+        'explanation': 'Decides the UPDATE programs (4 configurations per port): up_fields is a fresh copy of record_a made each iteration before assignments and write; variables are bound from the original record before any assignment (so right-hand sides see original values); exactly one writer.write(up_fields) per input record on every normal path, not control-dependent on WHERE; NU += 1 under the same guard immediately before the assignments; generated assignments are safe_set(up_fields, index, value) whose out-of-range store raises the bad-field error that the per-record handler reports with the record number.',
+        'not_decided': 'splitting of an arbitrary assignment list by the assignment regex (a statement about all strings).',
+    },
+    'C06': {
+        'rules': OW_ALL + both(sk.rule_sk_copy),
+        'thorough_rules': both(sk.rule_sk_upd, hd.rule_hd_startwin, hd.rule_hd_except) + one(ifc.rule_if_conf),
+        'explanation': 'Decides non-destructiveness as an ownership property: an interprocedural value-origin analysis over the library modules and all composed skeletons shows that no in-place modification site can receive a source object (result of get_record()/get_header() or a declared input parameter), that every record handed to a writer is freshly allocated (so output never aliases input and writers that normalise in place are safe), and that headers reaching a header-modifying set_header are not the caller\'s; files are opened for writing only through output_path; no destructive file-system call; sqlite only ever receives SELECT with identifiers validated by an anchored pattern whose language is within [A-Za-z0-9_]* (regex inclusion by automata); the dataframe is accessed through a read-only API and rows leave as fresh lists.',
+        'not_decided': 'effects of user expressions themselves (assumed not to mutate; cells are immutable strings).',
     },
     'C07': {
-        'rules': [(hd.rule_hd_table, BOTH), (hd.rule_hd_shapes, None), (hd.rule_hd_startwin, BOTH), (hd.rule_hd_except, BOTH), (hd.rule_hd_update, BOTH)],
-        'explanation': 'x',
-        'not_decided': 'y',
-    },
-    'C09': {
-        'rules': [(hd.rule_va_index, BOTH), (hd.rule_va_enum, BOTH), (hd.rule_va_esc, BOTH), (hd.rule_va_record, None)],
-        'explanation': 'x',
-        'not_decided': 'y',
+        'rules': HD_ALL + both(conf.rule_hd_arity, conf.rule_pa_hdrcall, conf.rule_pa_conf),
+        'thorough_rules': both(sk.rule_sk_copy, pa.rule_pa_case) + one(xp.rule_xp_verdicts),
+        'explanation': 'Decides header/record arity agreement and the naming table: in every parser configuration the arity delta of the installed writers (DISTINCT COUNT: +1) is applied to the header before set_header; set_header is called exactly once on the unwrapped sink with nothing that can raise afterwards; UPDATE hands the unchanged input header; EXCEPT header and records use select_except with the same indices; naming decision table total and ordered (unnamed -> colK by output position, star forms, column name, alias, in-range index -> source name); subscript shapes of this interpreter\'s ast are covered; the two star-rewriting patterns agree; no input header and no alias -> no header.',
+        'not_decided': 'that the header-side parse (python ast / JS bracket scanner) and the record-side evaluation of an arbitrary select list agree on the number of items.',
     },
     'C08': {
-        'rules': [(pa.rule_pa_case, BOTH), (pa.rule_pa_withcase, BOTH), (pa.rule_pa_groups, BOTH), (pa.rule_pa_litorder, BOTH), (pa.rule_pa_lit, BOTH), (pa.rule_pa_top, BOTH), (pa.rule_pa_asc, BOTH), (pa.rule_pa_redund, BOTH)],
-        'explanation': 'x',
-        'not_decided': 'y',
+        'rules': PA_ALL + both(ag.rule_jn_dispatch, ag.rule_pa_join, hd.rule_va_index),
+        'thorough_rules': both(conf.rule_pa_conf, conf.rule_pa_excl) + one(xp.rule_rx_xp, xp.rule_xp_keywords),
+        'explanation': 'Decides spelling invariance structurally: every keyword-matching pattern of the parser is case-insensitive (flag, inline flag or per-letter classes; alternations of fixed casings are recognised as not case-insensitive), the WITH modifier is captured in any case and lower-cased, statement groups order longer keywords first and location is position-sorted (clause order free), cleanup acts on whole lines / the final semicolon only, tabs are rewritten only after literal extraction, structural matchers receive literal-free text and every stored fragment has its literals re-inserted, TOP/LIMIT/ASC/DESC/FROM a/UPDATE a SET/= vs == handling; a taint analysis shows which functions receive raw query text and flags every raise that depends on it.',
+        'not_decided': 'the exact language of Python/JS string literals accepted by the literal regex.',
+    },
+    'C09': {
+        'rules': VA_ALL + both(rd.rule_rd_hdrflag, rd.rule_rd_replay, conf.rule_pa_with, sk.rule_sk_nr, pa.rule_pa_withcase),
+        'thorough_rules': both(sk.rule_sk_eof, sk.rule_sk_vars) + one(xp.rule_rx_xp),
+        'explanation': 'Decides variable binding structure: name -> index maps are built from header positions, a.name / a["name"] / direct names store that position, the escape function doubles backslashes first and covers quote/LF/CR with the same quote character as the generated key text, the candidate filter only searches for segments the escape leaves unchanged; header line replay flag is always the negation of has_header, WITH (header/noheader) reaches both iterators before their variable maps are built; NR is counted by the engine loop.',
+        'not_decided': 'completeness of the candidate filter for spellings of a name other than the canonical escaped one.',
+    },
+    'C10': {
+        'rules': both(cs.rule_cs_trigger, cs.rule_cs_dispatch, cs.rule_cs_width, cs.rule_cs_writer, cs.rule_rx_field, rs.rule_fl_flags),
+        'thorough_rules': both(cs.rule_cs_accept, cs.rule_cs_extws, cs.rule_rx_newline) + one(xp.rule_rx_xp),
+        'explanation': 'Decides necessary conditions of the round trip (stated as such): the characters that trigger quoting include every character the reader treats specially under the same policy, inner quotes are doubled (globally) and the field enclosed, reader/writer dispatch tables are total over the five policies and pair matching split/join, delimiter comparisons and position steps use the delimiter length, one separator per record, and lossy output (None, delimiter in simple output) always sets its warning flag which get_warnings reports.',
+        'not_decided': 'equality of the table read back for any table (a round-trip statement over all strings); encoding behaviour of io.TextIOWrapper.',
+    },
+    'C11': {
+        'rules': CS_ALL,
+        'thorough_rules': one(xp.rule_rx_xp),
+        'explanation': 'Decides the dialect pieces exactly where they are regular or structural: the quoted-field regex denotes exactly "([^"]|"")*" (DFA equivalence), greedy, group 1 = content; acceptance iff end of line or delimiter follows, otherwise the field runs to the next delimiter with the warning set; unquoted fields warn iff they contain a quote; external spaces iff delimiter is not a space; trailing delimiter -> final empty field; fast path only without quotes; whitespace regexes; policy dispatch; warning accumulation by OR.',
+        'not_decided': 'conformance of the composed splitter on every line (a transducer-equivalence argument outside this family).',
+    },
+    'C12': {
+        'rules': RD_PY,
+        'thorough_rules': py(cs.rule_cs_dispatch, rs.rule_fl_flags) + one(rs.rule_rs_decerr),
+        'explanation': 'Decides the structural reasons why chunking cannot matter: every non-empty chunk returned by stream.read is appended to the carry-over buffer on every path; every store to the buffer is an append, the remainder of the (line, separator, rest) partition whose head is returned, or emptying after its content was returned; a CR at the very end of buffered data triggers a one-character look-ahead whose LF is merged and whose other character becomes the buffer; bytes are decoded only by an incremental strict decoder; chunk_size occurs only as the read size; non-empty remainder at EOF is a row; BOM removal on the first physical line with the flag; comment lines skipped before the record counter; quoted_rfc continuation by quote parity; newline language {CRLF, CR, LF} with CRLF first.',
+        'not_decided': 'equality of results over all partitions (a statement about schedules x strings).',
     },
     'C13': {
-        'rules': [(ifc.rule_if_layer, None), (ifc.rule_if_conf, None), (ifc.rule_if_entry, None), (ifc.rule_cl_stdout, None), (ifc.rule_cl_exit, None)],
-        'explanation': 'x',
-        'not_decided': 'y',
+        'rules': IF_ALL,
+        'thorough_rules': both(conf.rule_rs_proto) + py(cs.rule_cs_dispatch),
+        'explanation': 'Decides that the engine cannot tell adapters apart and the CLI channel discipline: the engine imports no adapter and never inspects an adapter type; every adapter implements the interface with the engine\'s arity and hands the engine lists; every entry point delegates the unchanged query to rbql_engine.query; on the non-interactive path nothing but --version prints to stdout, errors are `Error [type]: msg` and warnings `Warning: msg` on stderr, every failure ends in sys.exit(1), success falls off main; error type map and out-format/default-policy tables.',
+        'not_decided': 'equality of results across back-ends (depends on pandas/sqlite value conversion).',
     },
-    'C01': {
-        'rules': SK_CORE + [(sk.rule_sk_emit, BOTH), (sk.rule_sk_unnest, BOTH), (sk.rule_sk_join, BOTH), (sk.rule_sk_stop, BOTH), (sk.rule_sk_copy, BOTH), (sk.rule_sk_upd, BOTH), (sk.rule_sk_nu, BOTH), (sk.rule_sk_err, BOTH), (sk.rule_sk_alias, BOTH), (sk.rule_sk_scope, PY)],
-        'explanation': 'x',
-        'not_decided': 'y',
+    'C14': {
+        'rules': both(sk.rule_sk_err, sk.rule_sk_nr, conf.rule_pa_hdrcall, conf.rule_pa_excl, rs.rule_fl_flags, rs.rule_fl_fields) + one(rs.rule_rs_decerr, ifc.rule_cl_exit),
+        'thorough_rules': both(sk.rule_sk_eof, rd.rule_rd_bom, cs.rule_cs_accept, ag.rule_ag_const),
+        'explanation': 'Decides error/warning structure: one try covers every user fragment in every generated program; handlers never fall through (first offending record ends the query); bad field -> runtime error with index+1 and NR, bad key with the key and NR, parsing errors re-raised unchanged, anything else -> runtime error with NR; text-detectable conflicts raise the parsing class before the header is handed over and nothing can raise after it; decode faults map to the IO class; each warning flag has one neutral initialisation, set-sites only under its condition and one guarding read in get_warnings; field-count warning records the first record per count and cites the two smallest.',
+        'not_decided': '"iff the condition occurred" for conditions defined over string contents (e.g. exactness of the delimiter-count heuristic).',
+    },
+    'C15': {
+        'rules': RS_ALL + py(wr.rule_wr_ret, wr.rule_wr_prop, wr.rule_wr_fin, sk.rule_sk_stop, conf.rule_rs_proto, conf.rule_pa_hdrcall),
+        'thorough_rules': py(rs.rule_fl_flags, rd.rule_rd_decode) + both(sk.rule_sk_err),
+        'explanation': 'Decides fault handling structure (Python): the broken-pipe handler covers every stream write, sets the flag and returns False, finish() is a no-op afterwards; the False propagates through every chain writer to stop_flag and the loops; every stream.read is reachable only through the try that maps UnicodeDecodeError to the IO error; every open() in the CSV/sqlite front-ends is closed on all paths (with / flag-coupled try-finally / object closed in the creator\'s finally); protocol: parser calls only set_header (once, unwrapped, first), the run only write, query() calls finish exactly once after a successful run, not in a finally.',
+        'not_decided': 'OS-level behaviour of pipes and the text wrapper\'s flushing.',
+    },
+    'C16': {
+        'rules': GS_ALL + py(sk.rule_sk_scope, lk.rule_lk_cache),
+        'thorough_rules': py(sk.rule_sk_alias, ow.rule_ow_mut),
+        'explanation': 'Decides isolation as absence of shared mutable state (hence independence of every schedule and history): inventory of module-level bindings with every mutable one never the receiver of a mutating operation; `global` writes allow-listed (two debug flags); no class-level mutable attribute, no mutable default; the per-query context is created per call, only passed down or captured by per-run closures; exec receives explicit globals and a per-call locals mapping and runs the composed skeleton whose every binding is local to the wrapper function; the LIKE cache lives in the context.',
+        'not_decided': 'stdlib-internal caches (re) and whatever user expressions touch; the JavaScript module-global query_context is outside this property\'s anchors and reported only as evidence.',
+    },
+    'C17': {
+        'rules': LK_ALL,
+        'thorough_rules': one(xp.rule_xp_roles),
+        'explanation': 'Decides the LIKE translation: every piece of the pattern appended to the result passes through the escape function (only the constants ., .*, ^, $ bypass it); exactly _ and % are special and map to . and .*; the scan advances by one unconditionally, flushes [p,i) at a wildcard, resets p = i+1 and flushes the tail; the result is ^...$, compiled without flags, matched against the whole text and turned into a boolean; rbql-js: the escape class contains every ECMAScript SyntaxCharacter (checked on the regex language), global flag, replacement \\$&.',
+        'not_decided': 'nothing further for single-line texts once re.escape / RegExp semantics are trusted (`.` and `$` treat LF specially - outside the quantifier).',
+    },
+    'C18': {
+        'rules': XP_ALL + both(cs.rule_rx_field, cs.rule_cs_trigger, cs.rule_cs_accept, cs.rule_cs_width, cs.rule_cs_extws, cs.rule_cs_dispatch, hd.rule_hd_table),
+        'thorough_rules': both(rd.rule_rd_bom, rd.rule_rd_comment, rd.rule_rd_rfc, rs.rule_fl_flags, rs.rule_fl_fields, cs.rule_rx_newline, cs.rule_rx_ws),
+        'explanation': 'Decides agreement of canonical facts extracted independently from each port: 27 paired regexes language-equal (or allow-listed with reason), both quoted-field regexes equal to the reference language, same quote trigger sets, same acceptance rule and delimiter-width handling, same policy dispatch, same statement keywords and groups (FROM only in Python), same reader warning and IO error message templates, same header naming decision table; both ports are held to the same rule for BOM/comment/RFC handling.',
+        'not_decided': 'header inference on arbitrary select lists (python ast vs JS text spans are different algorithms); behavioural equality of the two reader architectures.',
+    },
+    'C19': {
+        'rules': only(SK_ALL, 'js') + only(WR_ALL, 'js') + only(CONF_ALL, 'js') + only(AG_ALL, 'js') + only(JN_ALL, 'js') + only(HD_ALL, 'js') + js(ow.rule_ow_mut, ow.rule_ow_fresh) + one(xp.rule_xp_verdicts, xp.rule_xp_roles),
+        'thorough_rules': only(PA_ALL, 'js') + only(VA_ALL, 'js') + one(xp.rule_rx_xp, xp.rule_xp_keywords),
+        'explanation': 'Applies to rbql.js every rule that defines the reference semantics of C01-C05 and C07 (same rule = same semantics): all skeleton rules on the 20 composed JS programs, writer chain, configuration table, aggregates, joins, header rules, and the ownership analysis for the caller\'s arrays; plus cross-port agreement of parser outcomes and class sets.',
+        'not_decided': 'meaning of user expressions in two languages.',
+    },
+    'C20': {
+        'rules': RD_JS,
+        'thorough_rules': js(rs.rule_fl_flags, rs.rule_fl_fields, cs.rule_cs_dispatch) + one(xp.rule_xp_messages),
+        'explanation': 'Decides the chunk pipeline of the JS stream reader: bytes decoded only by one TextDecoder created fatal and ignoreBOM, every chunk decoded with {stream: true}, decoder flushed at end of stream, decode failures mapped to the IO error; the carried partial line is prepended to the first line of the next chunk and the last line kept, every complete line processed once in order; a chunk starting with LF right after a chunk ending in CR skips the empty first line, the ends-with-CR flag recomputed per chunk after use; end of stream flushes the partial line and an unfinished multi-line record; multi-line aggregation by quote parity; FIFO record queue.',
+        'not_decided': 'equality over all byte partitions.',
     },
 }
